@@ -18,6 +18,25 @@ def sh(cmd, timeout, cwd=None, env=None, stdin=None):
     except subprocess.TimeoutExpired as ex:
         return 124, (ex.stdout or b'').decode('utf-8', 'replace') + '\n[timeout]'
 
+def harness_dir(root, sub=''):
+    """The harness crates name the crate under test by the path /repo.  When the checks are pointed at another copy of the
+    repository (VERIF_REPO, used for background regression runs on a snapshot), build from a copy of harness/ in which
+    that path is rewritten."""
+    src = os.path.join(root, 'harness')
+    if REPO == '/repo':
+        return os.path.join(src, sub) if sub else src
+    dst = os.path.join(root, '.cache', 'harness-src')
+    os.makedirs(dst, exist_ok=True)
+    sh(['rsync', '-a', '--delete', '--exclude', 'target', src + '/', dst + '/'], 120)
+    for d, _, fs in os.walk(dst):
+        for f in fs:
+            if f == 'Cargo.toml':
+                q = os.path.join(d, f)
+                t = open(q).read()
+                if 'path = "/repo"' in t:
+                    open(q, 'w').write(t.replace('path = "/repo"', 'path = "%s"' % REPO))
+    return os.path.join(dst, sub) if sub else dst
+
 def sha_files(paths):
     h = hashlib.sha256()
     for p in sorted(paths):
@@ -128,7 +147,7 @@ class Build:
             st['coq_theories'] = {'ok': False, 'missing': [], 'msg': 'translation failed'}
             st['model'] = {'ok': False, 'msg': 'translation failed'}
         # 5. the harness against /repo's working tree, hooks on
-        hdir = os.path.join(root, 'harness')
+        hdir = harness_dir(root)
         lock_src = os.path.join(REPO, 'Cargo.lock')
         if os.path.exists(lock_src):
             shutil.copy(lock_src, os.path.join(hdir, 'Cargo.lock'))
